@@ -56,7 +56,13 @@ type Verdict struct {
 
 const keyKnownEmpty = "comment-on-empty-statement"
 
-func parseSrc(path, src string) (*ast.FileNode, error) {
+func parseSrc(path, src string) (n *ast.FileNode, err error) {
+	defer func() {
+		// the parser panics on some malformed inputs (only reached by the minimiser's candidates)
+		if r := recover(); r != nil {
+			n, err = nil, fmt.Errorf("parser panic: %v", r)
+		}
+	}()
 	return parser.Parse(path, strings.NewReader(src), reporter.NewHandler(nil))
 }
 
@@ -958,38 +964,58 @@ func runOracleRaw(c *Case) Verdict {
 // classifyNonIdempotent names the trigger of an idempotence failure by counterfactual: does the
 // failure go away when the empty statements / the comments are blanked out of the input?
 func classifyNonIdempotent(c *Case, n *ast.FileNode, out1, out2 string) string {
-	idem := func(src string) bool {
+	// idem: 1 = the variant is a fixpoint after one pass, 0 = it is not, -1 = the variant hits another failure
+	idem := func(src string) int {
 		m, err := parseSrc(c.Path, src)
 		if err != nil {
-			return false
+			return -1
 		}
 		o1, err := formatNode(m)
 		if err != nil {
-			return false
+			return -1
 		}
 		m2, err := parseSrc(c.Path, o1)
 		if err != nil {
-			return false
+			return -1
 		}
 		o2, err := formatNode(m2)
-		return err == nil && o1 == o2
+		if err != nil {
+			return -1
+		}
+		if o1 == o2 {
+			return 1
+		}
+		return 0
 	}
 	ws := strings.NewReplacer(" ", "", "\t", "", "\n", "", "\r", "")
 	kind := "content"
 	if ws.Replace(out1) == ws.Replace(out2) {
 		kind = "whitespace"
 	}
+	if kind == "whitespace" && strings.HasPrefix(out1, "\n") {
+		return "not-idempotent:whitespace:leading-blank-line"
+	}
 	se, hasEmpty := blankEmptyStatements(c.Source, n)
-	if hasEmpty && idem(se) {
+	if hasEmpty && idem(se) == 1 {
 		return "not-idempotent:empty-statement"
 	}
-	if sc, hasCmt := blankComments(c.Source, n, -1); hasCmt && idem(sc) {
-		return "not-idempotent:" + kind + "-at-comment"
+	sc, hasCmt := blankComments(c.Source, n, -1)
+	if hasCmt {
+		switch idem(sc) {
+		case 1:
+			return "not-idempotent:" + kind + "-at-comment"
+		case -1:
+			// the comment-free variant runs into a different failure (e.g. a format error): undecidable by
+			// counterfactual; every analysed whitespace-only case with comments is a spacing-at-comment case
+			if kind == "whitespace" {
+				return "not-idempotent:whitespace-at-comment"
+			}
+		}
 	}
 	if hasEmpty {
 		// neither alone: both the empty statements and the comments are necessary causes
 		if m, err := parseSrc(c.Path, se); err == nil {
-			if sec, ok := blankComments(se, m, -1); ok && idem(sec) {
+			if sec, ok := blankComments(se, m, -1); ok && idem(sec) == 1 {
 				return "not-idempotent:empty-statement"
 			}
 		}
@@ -1017,7 +1043,19 @@ func blankEmptyStatements(src string, n *ast.FileNode) (string, bool) {
 		}
 	}
 	rec(n)
-	return string(b), changed
+	return dropBlankLines(string(b)), changed
+}
+
+// dropBlankLines removes whitespace-only lines: blank lines are a trigger of their own
+// (leading-blank-line) that a counterfactual must not introduce.
+func dropBlankLines(s string) string {
+	var keep []string
+	for _, l := range strings.Split(s, "\n") {
+		if strings.TrimSpace(l) != "" {
+			keep = append(keep, l)
+		}
+	}
+	return strings.Join(keep, "\n") + "\n"
 }
 
 // blankComments overwrites comment number `only` (in source order; -1 = every comment) with blanks.
@@ -1042,8 +1080,7 @@ func blankComments(src string, n *ast.FileNode, only int) (string, bool) {
 			changed = true
 		}
 	}
-	// do not introduce the "blank lines at the start of the file" trigger
-	return strings.TrimLeft(string(b), " \t\r\n"), changed
+	return dropBlankLines(string(b)), changed
 }
 
 // sameFieldMultiset reports whether two messages have the same multiset of top-level wire fields
